@@ -1,6 +1,8 @@
 mod exec;
 mod exec_l1;
 mod exec_l2;
+mod exec_l3;
+mod faultdb;
 mod eval;
 mod gen_l1;
 mod gen_trie;
@@ -34,7 +36,9 @@ fn main() {
     let args: Vec<String> = std::env::args().collect();
     let cmd = args.get(1).map(|s| s.as_str()).unwrap_or("");
     // silence the default panic message: a panic is an observation
-    std::panic::set_hook(Box::new(|_| {}));
+    if std::env::var("VERIF_PANIC_MSG").is_err() {
+        std::panic::set_hook(Box::new(|_| {}));
+    }
     match cmd {
         "gen" => {
             let stream = args.get(2).expect("stream");
@@ -121,7 +125,7 @@ fn main() {
                 let op = op.unwrap();
                 let line = line.unwrap();
                 let t: Vec<&str> = op.split_whitespace().collect();
-                if t.len() == 2 && t[0] == "reset" {
+                if t.len() >= 2 && (t[0] == "reset" || t[0] == "fx.reset") {
                     ev.cfg = t[1].to_string();
                 }
                 writeln!(o, "{}", ev.line(&line)).unwrap();
